@@ -205,6 +205,9 @@ impl BitWrite for BitBuffer {
 
     #[inline]
     fn write_bits_with_len(&mut self, src: &[u8], bit_len: usize) -> Result<(), Error> {
+        if src.len() * BYTE_LEN < bit_len {
+            return Err(Error::insufficient_data_in_source_buffer());
+        }
         self.ensure_can_write_additional_bits(bit_len);
         BitWrite::write_bits_with_len(
             &mut (&mut self.buffer[..], &mut self.write_position),
@@ -220,6 +223,9 @@ impl BitWrite for BitBuffer {
         src_bit_offset: usize,
         src_bit_len: usize,
     ) -> Result<(), Error> {
+        if src.len() * BYTE_LEN < src_bit_offset + src_bit_len {
+            return Err(Error::insufficient_data_in_source_buffer());
+        }
         self.ensure_can_write_additional_bits(src_bit_len);
         BitWrite::write_bits_with_offset_len(
             &mut (&mut self.buffer[..], &mut self.write_position),
